@@ -36,6 +36,21 @@ CHECKS = {
             "and REPL sessions (replace_locals / release_orphan_locals), down to quantum 1; results are compared with the value the "
             "mechanism model assigns (ContentPreserved); refcount assertion panics are recorded as data.",
             RT_NOTE + " Reachability is recomputed by the harness from Process fields, not by reachable_heap_indices.", RT_TECH),
+    "C01": ("soundness", "model_checking",
+            "spec/Soundness.tla states NotStuck (an accepted program never ends in TypeMismatch / FieldAccessInvalid / CallInvalid / "
+            "ArityMismatch / stack or frame errors / undefined variable, function, constant, builtin) and Inhabits (the membership relation "
+            "of the type semantics: kinds, tuple names, labels, field-wise, partials, unions) and TLC judges one record per accepted "
+            "program: the outcome, the value with names and labels, and the result type the compiler inferred, exported as a graph from "
+            "the session's own type registry (harness typerun). Programs: a seeded sample of the cross product (union parameter of 2-3 "
+            "variants out of 11) x (1-3 ordered branch patterns out of 14) x (fallback or not) x (one argument per variant) - the "
+            "narrowing-by-pattern-order carve-outs; tail calls with arguments of other types, generics at union arguments, recursive "
+            "aliases, declared return types; the test-suite and spec.md corpus; typed spawn/send/select systems (runtime families, "
+            "seeded random process systems, the select cross product); a fixed corpus of generated sequential programs.",
+            "Trusted: the export of the type graph and of the value; Cycle back-references and type variables inside the inferred type "
+            "are not judged. In the generated and process families a nil is accepted at any position (InhabitsUpToNil) and programs "
+            "that rebind a name are not generated, because the pinned defects bound-variable-loses-nil / narrowing-survives-rebinding "
+            "strike there in a large share of programs; the strict relation is used everywhere else.",
+            "TLA+ statement of type soundness (membership relation of the type semantics); recorded runs of accepted programs validated by TLC"),
     "C02": ("seqlang", "model_checking",
             "spec/SeqLang.tla is a big-step evaluator of the documented sequential core written in TLA+ (value flow, nil short-circuit, "
             "blocks/branches/condition-consequence, every pattern form, tuples/spreads/field access, functions, references, closures, "
@@ -152,6 +167,8 @@ ENGINES = [
      "kind_free_text": "spec/Equality.tla + EqualityTrace.tla over recorded verdicts; refs clause through engines/runtime.py"},
     {"name": "vmstack", "path": "engines/vmstack.py", "serves_properties": ["C07", "C16"],
      "kind_free_text": "harness bcdump/vmtrace; spec/VMSem.tla + VMStack.tla (all paths of every function) + VMTrace.tla (real VM traces) + VMPeaks.tla"},
+    {"name": "soundness", "path": "engines/soundness.py", "serves_properties": ["C01"],
+     "kind_free_text": "harness typerun (outcome + value + exported inferred type graph); spec/Soundness.tla judges NotStuck / Inhabits"},
     {"name": "seqlang", "path": "engines/seqlang.py", "serves_properties": ["C02"],
      "kind_free_text": "lib/seqgen.py generator + tiny-scope enumeration + real parser (harness astdump); spec/SeqLang.tla evaluator; spec/SeqLangTrace.tla judges real runs"},
     {"name": "types", "path": "engines/types_engine.py", "serves_properties": ["C08", "C09"],
